@@ -11,8 +11,12 @@ for d in sorted(glob.glob('/verif/seeded/*/')):
     if len(br) > 230:
         br = br[:229] + '…'
     det = m.get('detection', '')
-    missed = det.startswith('missed')
-    if missed:
+    is_open = det.startswith('missed (open)')
+    missed = det.startswith('missed') and not is_open
+    if is_open:
+        n_open = globals().get('n_open', 0) + 1
+        globals()['n_open'] = n_open
+    elif missed:
         n_missed += 1
     else:
         n_from_start += 1
@@ -26,6 +30,10 @@ for d in sorted(glob.glob('/verif/seeded/*/')):
         # first-wave metas name the obligations in the detection text
         t = det.split(': ', 1)[1] if ': ' in det else det.split('caught after ', 1)[-1]
         ob = '`%s`' % t.replace('|', '/')
+    if is_open:
+        rows.append('| %s | %s | **missed, still open** | — (%s) |' % (sid, br, det.split(': ', 1)[-1].replace('|', '/')))
+        notes.append('* **%s** — still missed: %s' % (sid, det.split(': ', 1)[-1]))
+        continue
     rows.append('| %s | %s | %s | %s |' % (sid, br, '**missed**, then caught' if missed else 'from the start', ob))
     if missed:
         t = det
